@@ -5,5 +5,5 @@ From Coq Require Import String.
 From QSCGen Require Import G_pins.
 Open Scope string_scope.
 
-Lemma pin_newton_current : pin_newton = "2935302852d74bec6047fce1c599cb43b91e6f530c93d51f8f187586d57bccb9".
+Lemma pin_newton_current : pin_newton = "d61a7eae40a6f75d06fde12dd47b3fbf02f4ce477b2b364bafadb0f64a9d169e".
 Proof. reflexivity. Qed.
